@@ -104,18 +104,24 @@ Wd(items, pl) == IF pl.i = 0 THEN 1 ELSE items[pl.i].w
 
 After(st, x, y) == st.mode = "open" /\ (y > st.py \/ (y = st.py /\ x >= st.px))
 
+(* A cluster w cells wide placed at (x0, y) shows its glyph at x0 and       *)
+(* continuation cells at x0+1 .. x0+w-1.  Whole(...) = all of them visible.  *)
+Whole(vis, x0, y, w) == \A i \in 0..(w - 1) : <<x0 + i, y>> \in vis
+
 Demand(st, items, vis, x, y) ==
   LET heads == {n \in 1..Len(st.out) : st.out[n].x = x /\ st.out[n].y = y}
-      tails == {n \in 1..Len(st.out) : Wd(items, st.out[n]) = 2 /\ st.out[n].x + 1 = x /\ st.out[n].y = y}
+      tails == {n \in 1..Len(st.out) : /\ st.out[n].y = y /\ st.out[n].x < x
+                                       /\ x < st.out[n].x + Wd(items, st.out[n])}
   IN IF After(st, x, y) THEN [k |-> "any"]
      ELSE IF heads # {} THEN
         LET n == CHOOSE n \in heads : \A m \in heads : m <= n
             w == Wd(items, st.out[n])
         IN IF w = 0 THEN [k |-> "any"]                         \* a zero-width cluster shows as nothing definite
-           ELSE IF w = 2 /\ <<x + 1, y>> \notin vis THEN [k |-> "any"]   \* cut by an ancestor: must not spill (containment)
+           ELSE IF ~Whole(vis, x, y, w) THEN [k |-> "any"]     \* cut by an ancestor: must not spill (containment)
            ELSE [k |-> "head", i |-> st.out[n].i, w |-> w]
      ELSE IF tails # {} THEN
-        IF <<x - 1, y>> \notin vis THEN [k |-> "any"] ELSE [k |-> "tail"]
+        LET n == CHOOSE n \in tails : TRUE IN
+        IF ~Whole(vis, st.out[n].x, y, Wd(items, st.out[n])) THEN [k |-> "any"] ELSE [k |-> "tail"]
      ELSE [k |-> "none"]
 
 (* obs[p] = [ch, cell]: did the displayed cell change, and what it shows    *)
